@@ -347,6 +347,11 @@ func Build(s Spec, mons ...vnet.Monitor) *Built {
 	default:
 		panic("unknown profile " + s.Profile)
 	}
+	if !cfg.K.Sync && cfg.MaxSteps > 2*(6000+1500*cfg.N) && s.Profile != "async-then-sync" {
+		// hostile runs may never finish (loss, adversaries): their step cap stays moderate, a run that reaches it
+		// is simply over (no monitor judges progress there); the N^2-scaled cap is for the synchronous profiles
+		cfg.MaxSteps = 2 * (6000 + 1500*cfg.N)
+	}
 	cfg.Roles = make([]vnet.Role, cfg.N+cfg.Watchers)
 	if amnesiaAsync {
 		f := (cfg.N - 1) / 3
